@@ -354,7 +354,7 @@ func finish(w *World, ev *Evidence, results []*harnessResult, kf *knownFindings,
 			fmt.Printf("  harness=%s args=%v assertion=%s %s\n", v.Harness, v.Args, v.AssertID, v.Msg)
 			exit = 1
 		}
-		if hr.cfg.Twin && !twinViolated && !noReplay {
+		if hr.cfg.Twin && !twinViolated && !noReplay && len(hr.unsupported) == 0 {
 			fmt.Printf("TOOL-ERROR: vacuity twin %s was not violated: the harness does not reach its assertion\n", hr.cfg.Name)
 			toolError = true
 		}
